@@ -331,11 +331,12 @@ func equals(a, b px.Value) string {
 	return r
 }
 
-// keyErr: the INVALID_MAP_KEY report asks for the PType() of the value that has no key; when that value holds a Like type (which
-// does not resolve) the report is replaced by UNRESOLVED_TYPE_OF at the very same point.  For operands that have no key the two
-// are one observation.
+// keyErr: the INVALID_MAP_KEY report is built from the PType() of the value that has no key, and inferring that type can itself
+// raise a reported error (a Like type does not resolve: UNRESOLVED_TYPE_OF; an Init type looks for a constructor:
+// CTOR_NOT_FOUND; …) at the very same point.  For operands that have no key every REPORTED error there is one observation
+// (a runtime fault is not: it stays `fault`).
 func keyErr(class string, vs ...px.Value) string {
-	if class == "reported PCORE_UNRESOLVED_TYPE_OF" {
+	if strings.HasPrefix(class, "reported ") && class != "reported PCORE_INVALID_MAP_KEY" {
 		for _, v := range vs {
 			if !keyableVal(v) {
 				return "reported PCORE_INVALID_MAP_KEY"
